@@ -190,6 +190,11 @@ func (g *node1Gen) emit(desc, ev string, pre string, res simResp) {
 		out = fmt.Sprintf("(GOk %s %s)", coqObs(res.resp), g.n.dump())
 	}
 	g.w.states[pre] = true
+	if res.panicv == nil && !g.n.dead {
+		if d := g.n.termFileMismatch(); d != "" {
+			g.w.findings = append(g.w.findings, fmt.Sprintf("C05|vote-not-durable|after %s: %s|", desc, d))
+		}
+	}
 	kind := strings.Fields(strings.Trim(ev, "()"))[0]
 	outk := "ok"
 	if out == "GPanic" {
